@@ -312,7 +312,7 @@ def call_cog(mods, g, crs, mode, shape, tight, anchor, tol, rnd, subst=None):
 def captured_line(mods, g, crs, mode, shape, tight, anchor, tol, rnd, spy):
     bbox = g.footprint(crs, buffer=0.9, npoints=100).boundingbox
     dst_crs = bbox.crs
-    same_crs = dst_crs == g.crs
+    same_crs = dst_crs.proj == g.crs.proj  # pyproj equality, independent of odc-geo's CRS.__eq__ fast paths
     same_units = g.crs.units == dst_crs.units
     sr = g.resolution
     cp = spy.cp if spy.cp is not None else (1, -1)
@@ -328,9 +328,9 @@ def exact_cog_part(R: Run, mods):
     anchors = ["default", "default", "edge", "center", "floating", (0.25, 0.75)]
     srcs = []
     for _ in range(R.pick(120, 1200)):
-        crs = rng.choice(["EPSG:32633", "EPSG:3857", "EPSG:4326", "EPSG:3577", "EPSG:6933"])
+        crs = rng.choice(["EPSG:32633", "EPSG:3857", "EPSG:4326", "EPSG:3577", "EPSG:6933", "ESRI:54009", "OGC:CRS84"])
         ny, nx = rng.randint(1, 60), rng.randint(1, 60)
-        if crs == "EPSG:4326":
+        if crs in ("EPSG:4326", "OGC:CRS84"):
             r = rng.choice([0.25, 0.125, 2.0 ** -8])
             A = Affine(r, 0, 12 + rng.randint(0, 20) * r, 0, -r, 52 - rng.randint(0, 20) * r)
         elif crs == "EPSG:32633":
@@ -349,16 +349,18 @@ def exact_cog_part(R: Run, mods):
             A = Affine(-A.a, 0, A.c + nx * r, 0, A.e, A.f)  # mirrored in x (what xx[:, ::-1] yields)
         elif k < 0.36:
             A = Affine(A.a, 0, A.c, 0, -A.e, A.f - ny * r)  # south-up
-        srcs.append(GeoBox((ny, nx), A, crs))
-    for g in srcs:
-        src_crs = str(g.crs)
+        srcs.append((GeoBox((ny, nx), A, mk_crs(rng, CRS, crs)), crs))
+    for g, src_crs in srcs:
         if src_crs == "EPSG:3577":
             dsts = ["EPSG:3577", "EPSG:4326", "EPSG:3857", "utm"]
-        elif src_crs == "EPSG:4326":
-            dsts = ["EPSG:4326", "EPSG:3857", "EPSG:32633", "EPSG:6933", "utm", "utm-n", "utm-s"]
+        elif src_crs in ("EPSG:4326", "OGC:CRS84"):
+            dsts = ["EPSG:4326", "OGC:CRS84", "EPSG:3857", "EPSG:32633", "EPSG:6933", "ESRI:54009", "ESRI:54030"] + rng.sample(UTM_SPELLINGS, 3)
         else:
-            dsts = ["EPSG:4326", "EPSG:3857", "EPSG:32633", "EPSG:6933", "utm", "utm-s", src_crs, src_crs]
+            dsts = (["EPSG:4326", "EPSG:3857", "EPSG:32633", "EPSG:6933", "OGC:CRS84", "ESRI:54009", src_crs, src_crs]
+                    + rng.sample(UTM_SPELLINGS, 2))
         crs = rng.choice(dsts)
+        if not crs.lower().startswith("utm") and rng.random() < 0.5:
+            crs = mk_crs(rng, CRS, crs)
         k = rng.random()
         shape = None
         if k < 0.3:
@@ -371,7 +373,8 @@ def exact_cog_part(R: Run, mods):
             r = rng.choice([16, 64, 0.25, 1024, 2.0 ** -6])
             mode = (r, -r) if rng.random() < 0.7 else (r, r * rng.choice([2, -0.5]))
         else:
-            mode = rng.choice(["bogus", "auto"])
+            # spellings of the string options: only the exact lower-case words are accepted by the code
+            mode = rng.choice(["bogus", "auto", "AUTO", "Fit", "Same", "auto ", "FIT"])
         if rng.random() < 0.12:
             shape = rng.choice([(3, 5), 7, (1, 1), 64])
         tight = rng.random() < 0.15
@@ -408,7 +411,7 @@ def exact_cog_part(R: Run, mods):
             continue
         if shape is not None and real and not real.startswith("ERR"):
             # span / n is not exact in doubles: shape requests are judged by the oracle (float stream)
-            shape_oracle(R, shape, box[0][0], tight, anchor, {"line": line}, None)
+            shape_oracle(R, shape, box[0][0], tight, anchor, {"line": line}, None, tol)
             continue
         sig = (f"out|{mode_s(mode).split(':')[0]}|{'same-crs' if ' T ' in line[:12] else 'x-crs'}|{anchor_s(anchor).split(':')[0]}"
                + ("|tight" if tight else "") + ("|rnd" if rnd is not None else ""))
@@ -425,7 +428,7 @@ def utm_part(R: Run, mods):
     from odc.geo import geom
 
     rng = R.rng
-    for _ in range(R.pick(60, 600)):
+    for _ in range(R.pick(32, 400)):
         lon = rng.uniform(-179, 179)
         lat = rng.uniform(-79, 83)
         if 56 <= lat <= 64 and 0 <= lon <= 13 or lat >= 72 and 0 <= lon <= 42:
@@ -434,16 +437,18 @@ def utm_part(R: Run, mods):
         poly = geom.box(lon, lat, min(lon + w, 180), min(lat + w, 84), "EPSG:4326")
         base = CRS.utm(poly)
         south = base.proj.utm_zone.endswith("S")
-        for req in ("utm", "utm-n", "utm-s"):
+        for raw in ["utm", "utm-n", "utm-s"] + rng.sample(UTM_SPELLINGS[3:] + ["utm-x", "UTMN", "utm-"], 3):
+            req = raw.lower() if raw.lower() in ("utm", "utm-n", "utm-s") else "utm"
             got = []
 
             def f():
-                c = norm_crs(req, poly)
+                c = norm_crs(raw, poly)
                 got.append(c)
                 return str(c.epsg)
 
-            R.corr(f"c11 utm {req} {base.epsg} {bool_s(south)}", f, sig=f"utm|{req}|{'S' if south else 'N'}")
-            if got:
+            # every spelling: which request the text is (case-insensitive; unknown suffixes behave like plain utm)
+            R.corr(f"c11 utmtxt {raw} {base.epsg} {bool_s(south)}", f, sig=f"utm|{req}|{'S' if south else 'N'}" + ("" if raw == req else "|spelling"))
+            if got and raw.lower() in ("utm", "utm-n", "utm-s"):
                 c = got[0]
                 zone = int(base.proj.utm_zone[:-1])
                 want = (32700 if (req == "utm-s" or (req == "utm" and south)) else 32600) + zone
@@ -491,9 +496,10 @@ def make_source(R, mods, lon, lat, src_crs, extent_m, n_pix, rotated):
     from pyproj import Transformer
 
     Affine, GeoBox = mods[0], mods[1]
-    tr = Transformer.from_crs("EPSG:4326", src_crs, always_xy=True)
+    proj = src_crs.proj if hasattr(src_crs, "proj") else src_crs
+    tr = Transformer.from_crs("EPSG:4326", proj, always_xy=True)
     cx, cy = tr.transform(lon, lat)
-    if src_crs == "EPSG:4326":
+    if (src_crs.geographic if hasattr(src_crs, "geographic") else src_crs == "EPSG:4326"):
         span = extent_m / 111000.0
     else:
         span = extent_m
@@ -514,6 +520,95 @@ def make_source(R, mods, lon, lat, src_crs, extent_m, n_pix, rotated):
     return GeoBox((ny, n_pix), A, src_crs)
 
 
+_CHURN = [0]
+
+
+def laea_def(lon0, lat0, wkt=False):
+    """an ad-hoc (non-EPSG) CRS definition, e.g. a per-tile LAEA; as proj string or as WKT without ids"""
+    txt = f"+proj=laea +lat_0={lat0:.4f} +lon_0={lon0:.4f} +x_0=0 +y_0=0 +datum=WGS84 +units=m +no_defs +type=crs"
+    if wkt:
+        import pyproj
+
+        return pyproj.CRS.from_user_input(txt).to_wkt()
+    return txt
+
+
+def crs_churn(R: Run, mods, n):
+    """CRS-construction churn between requests: `n` distinct ad-hoc definitions, each used once (so that
+    transformers get cached for them), none kept by the harness"""
+    from odc.geo import geom
+
+    CRS = mods[4]
+    for _ in range(n):
+        i = _CHURN[0]
+        _CHURN[0] += 1
+        lat0 = -62 + (i * 0.3701) % 124
+        lon0 = -172 + (i * 1.1303) % 344
+        c = CRS(laea_def(lon0, lat0))
+        try:
+            geom.point(lon0 + 0.1, lat0 + 0.1, "EPSG:4326").to_crs(c)
+            if i % 3 == 0:
+                geom.point(10.0, 20.0, c).to_crs("EPSG:3857")
+        except Exception:  # pylint: disable=broad-except
+            pass
+    R.count("history:crs-churn-definitions", n)
+
+
+def crs_pool(rng, lon, lat, u, aus):
+    epsg = ["EPSG:4326", "EPSG:3857", "EPSG:6933", f"EPSG:{u}"] + (["EPSG:3577"] if aus else [])
+    non = ["OGC:CRS84", "ESRI:54009", "ESRI:54030",
+           laea_def(lon + rng.uniform(-3, 3), lat + rng.uniform(-3, 3)),
+           laea_def(lon + rng.uniform(-3, 3), lat + rng.uniform(-3, 3), wkt=True)]
+    return epsg, non
+
+
+def mk_crs(rng, CRS, spec, state=None):
+    """CRS wrapper in a chosen lazy state: `.epsg` already read or not"""
+    c = CRS(spec)
+    if state if state is not None else rng.random() < 0.5:
+        _ = c.epsg
+    return c
+
+
+UTM_SPELLINGS = ["utm", "utm-n", "utm-s", "UTM", "Utm", "UTM-N", "utm-N", "Utm-n", "UTM-S", "utm-S", "Utm-S", "uTm-s"]
+
+
+def nonepsg_part(R: Run, mods):
+    """non-EPSG CRSs (OGC:CRS84, ESRI:54009/54030, ad-hoc proj strings, WKT without ids) as source AND target,
+    in every lazy-state combination of the two CRS wrappers"""
+    Affine, GeoBox, ov, M, CRS, norm_crs, _pick, resxy_, xy_, AnchorEnum = mods
+    rng = R.rng
+    combos = []
+    for _ in range(R.pick(14, 120)):
+        lon, lat = rng.uniform(-150, 150), rng.uniform(-55, 60)
+        _, non = crs_pool(rng, lon, lat, utm_epsg(lon, lat), False)
+        a, b = rng.choice(non), rng.choice(non + ["EPSG:3857", "EPSG:4326"])
+        if rng.random() < 0.15:
+            b = a
+        for sa in (False, True):
+            for sb in (False, True):
+                combos.append((lon, lat, a, b, sa, sb))
+    for lon, lat, a, b, sa, sb in combos:
+        sc = mk_crs(rng, CRS, a, sa)
+        extent, npx = rng.choice([(4e4, 40), (3e5, 120), (1.5e6, 200)])
+        try:
+            g = make_source(R, mods, lon, lat, sc, extent, npx, rng.choice([False, False, True]))
+        except Exception:  # pylint: disable=broad-except
+            continue
+        dc = mk_crs(rng, CRS, b, sb)
+        mode = rng.choice(["auto", "auto", "fit", "same"]) if sc.units == dc.units else rng.choice(["auto", "fit"])
+        anchor = rng.choice(["default", "default", "center", "floating"])
+        tol = rng.choice([0.01, 0.0, 0.05])
+        case = {"src": f"{tuple(g.shape)} {tuple(g.affine)[:6]} {a}", "dst": b, "mode": mode, "shape": None, "tight": False,
+                "anchor": anchor, "tol": tol, "round": None, "class": "non-epsg", "epsg_read": [sa, sb], "lonlat": [lon, lat]}
+        try:
+            out, spy = call_cog(mods, g, dc, mode, None, False, anchor, tol, None)
+        except Exception as e:  # pylint: disable=broad-except
+            R.oracle(False, "compute-output-raises", case, f"{type(e).__name__}: {e}")
+            continue
+        judge(R, mods, g, b, mode, None, False, anchor, tol, None, out, spy, case, lon, lat)
+
+
 def float_part(R: Run, mods):
     from pyproj import Transformer
 
@@ -529,9 +624,12 @@ def float_part(R: Run, mods):
         u = utm_epsg(lon, lat)
         # extents: tile ... continental; UTM-related pairs stay within a zone's neighbourhood
         cls = rng.choice(["tile", "tile", "region", "continental"])
-        src_crs = rng.choice(["EPSG:4326", "EPSG:3857", "EPSG:6933", f"EPSG:{u}"] + (["EPSG:3577"] if aus else []))
-        dst = rng.choice(["EPSG:4326", "EPSG:3857", "EPSG:6933", f"EPSG:{u}", "utm", "utm-n", "utm-s"] + (["EPSG:3577"] if aus else []))
-        utm_involved = src_crs == f"EPSG:{u}" or dst.startswith("utm") or dst == f"EPSG:{u}"
+        if it % 30 == 15:
+            crs_churn(R, mods, R.pick(40, 120))
+        pool_e, pool_n = crs_pool(rng, lon, lat, u, aus)
+        src_crs = rng.choice(pool_e + pool_e + pool_n)
+        dst = rng.choice(pool_e + pool_n + rng.sample(UTM_SPELLINGS, 4))
+        utm_involved = src_crs == f"EPSG:{u}" or dst.lower().startswith("utm") or dst == f"EPSG:{u}"
         if cls == "tile":
             extent, npx = rng.uniform(2e3, 1.2e5), rng.choice([1, 3, 64, 200, 512, 1000])
         elif cls == "region":
@@ -550,7 +648,7 @@ def float_part(R: Run, mods):
             continue
         rotated = rng.choice([False, False, False, True, True, "mirror", "tiny"])
         try:
-            g = make_source(R, mods, lon, lat, src_crs, extent, npx, rotated)
+            g = make_source(R, mods, lon, lat, mk_crs(rng, CRS, src_crs), extent, npx, rotated)
         except Exception:  # pylint: disable=broad-except
             continue
         # the whole source (not just its centre) must lie inside the areas of use of both CRSs
@@ -565,6 +663,8 @@ def float_part(R: Run, mods):
                       and np.abs(lons).max() < 179 and (not utm_involved or lons.max() - lons.min() < 14))
             if src_crs == "EPSG:6933" or dst == "EPSG:6933":
                 inside = inside and np.abs(lats).max() < 80
+            if "laea" in src_crs.lower() or "laea" in dst.lower() or "Lambert_Azimuthal" in src_crs + dst:
+                inside = inside and (lats.max() - lats.min() < 40) and (lons.max() - lons.min() < 60)
         except Exception:  # pylint: disable=broad-except
             inside = False
         if not inside:
@@ -577,7 +677,7 @@ def float_part(R: Run, mods):
         elif k < 0.55:
             mode = "fit"
         elif k < 0.65:
-            mode = "same" if (CRS(src_crs).units == CRS(dst if not dst.startswith("utm") else f"EPSG:{u}").units) else "fit"
+            mode = "same" if (CRS(src_crs).units == CRS(dst if not dst.lower().startswith("utm") else f"EPSG:{u}").units) else "fit"
         elif k < 0.85:
             mode = "explicit"
         else:
@@ -589,6 +689,9 @@ def float_part(R: Run, mods):
         rnd = rng.choice([None, None, None, True])
         case = {"src": f"{tuple(g.shape)} {tuple(g.affine)[:6]} {src_crs}", "dst": dst, "mode": mode, "shape": shape,
                 "tight": tight, "anchor": anchor_s(anchor), "tol": tol, "round": rnd, "class": cls}
+        # the destination is given as a string or as a CRS wrapper whose `.epsg` was / was not read before
+        is_utm = dst.lower().startswith("utm")
+        dst_arg = dst if (is_utm or rng.random() < 0.4) else mk_crs(rng, CRS, dst)
         try:
             if mode == "explicit":
                 out0 = ov.compute_output_geobox(g, dst)
@@ -597,24 +700,31 @@ def float_part(R: Run, mods):
                 case["mode"] = f"explicit {mode_arg}"
             else:
                 mode_arg = mode
-            if rnd is True and dst == "EPSG:4326":
+            if rnd is True and (not is_utm and CRS(dst).geographic):
                 rnd = None  # rounding degrees to whole numbers gives a zero pixel size: not a sensible request
                 case["round"] = None
             # process-global cache histories user code may have created for this CRS pair
-            cache_history(rng, g.crs, dst if not dst.startswith("utm") else f"EPSG:{u}")
-            out, spy = call_cog(mods, g, dst, mode_arg, shape, tight, anchor, tol, rnd)
+            cache_history(rng, g.crs, dst if not is_utm else f"EPSG:{u}")
+            out, spy = call_cog(mods, g, dst_arg, mode_arg, shape, tight, anchor, tol, rnd)
         except Exception as e:  # pylint: disable=broad-except
             R.oracle(False, "compute-output-raises", case, f"{type(e).__name__}: {e}")
             continue
         judge(R, mods, g, dst, mode_arg, shape, tight, anchor, tol, rnd, out, spy, case, lon, lat)
 
 
-def shape_oracle(R, shape, out, tight, anchor, case, sig):
+def shape_oracle(R, shape, out, tight, anchor, case, sig, tol=TOL_DEFAULT):
     if isinstance(shape, tuple):
         R.oracle(tuple(out.shape) == shape, "shape-request", case, f"asked {shape} got {tuple(out.shape)}", sig=sig)
         return
     got = max(out.shape)
     snapping = not tight and anchor != "floating"
+    if not snapping and tol < 2.0 ** -40 and got in (shape, shape + 1):
+        # the pixel size is span / n, so the pixel count ceil(maybe_int(span / res, tol)) sits exactly ON a ceil
+        # decision in exact arithmetic (quotient == n); only `tol` absorbs the ulp of noise of the double quotient
+        # (13.000000000000002 -> 14).  With tol below a few ulps the outcome is IEEE rounding, not judged
+        # (same ulp-based guard as near_decision for the grid oracles).
+        R.count("oracle:shape-request-longest|skipped-zero-tol-at-ceil-decision")
+        return
     if got == shape + 1 and snapping:
         # known finding (from_bbox int-shape branch derives the pixel size, then snaps the edges outward)
         R.oracle(False, "int-shape-longest-side-plus-one", case,
@@ -629,19 +739,34 @@ def judge(R, mods, g, dst, mode, shape, tight, anchor, tol, rnd, out, spy, case,
     Affine, GeoBox, ov, M, CRS, norm_crs, _pick, resxy_, xy_, AnchorEnum = mods
     F = Fraction
     sig = f"{case['class']}|{'rot' if not g.axis_aligned else 'mirror' if g.affine.a < 0 else 'nup'}"
-    # hemisphere / zone of utm requests
-    if dst.startswith("utm"):
+    import pyproj
+
+    dl = dst.lower()
+    # hemisphere / zone of utm requests (the request text is case-insensitive)
+    if dl.startswith("utm"):
         e = out.crs.epsg
         ok = e is not None and (32601 <= e <= 32660 or 32701 <= e <= 32760)
-        if ok and dst == "utm-n":
+        if ok and dl == "utm-n":
             ok = e < 32700
-        if ok and dst == "utm-s":
+        if ok and dl == "utm-s":
             ok = e > 32700
         R.oracle(ok, "utm-hemisphere-out", case, f"{dst} resolved to EPSG:{e}", sig=sig)
+        if ok and lat is not None and dl == "utm":
+            R.oracle((e > 32700) == (lat < 0) or abs(lat) < 3, "utm-hemisphere-out", case, f"{dst} at lat {lat:.2f} resolved to EPSG:{e}")
         vr = out.crs.valid_region
-        if dst == "utm" and vr is not None:
-            R.oracle((vr & g.geographic_extent).area > 0, "utm-valid-area-overlap-out", case, f"EPSG:{e} does not overlap the raster")
-    same_crs = out.crs == g.crs
+        if dl == "utm" and vr is not None:
+            R.oracle((vr & g.extent.to_crs("EPSG:4326")).area > 0, "utm-valid-area-overlap-out", case, f"EPSG:{e} does not overlap the raster")
+        same_crs = g.crs.proj == out.crs.proj
+    else:
+        # the output CRS is the requested one — judged by pyproj on a freshly built CRS, not by odc-geo's CRS.__eq__
+        want = pyproj.CRS.from_user_input(dst)
+        same_crs = g.crs.proj == want
+        R.oracle(out.crs.proj == want, "output-crs-is-requested", case,
+                 f"requested {dst[:60]} but the output grid is in {str(out.crs)[:60]} (source {str(g.crs)[:40]})", sig=sig)
+        if not same_crs:
+            R.oracle(out is not g, "different-crs-returns-source", case, "a different CRS was requested but the source GeoBox itself came back", sig=sig)
+            if out is g:
+                return
     if same_crs and mode in ("auto", "same") and shape is None and anchor == "default":
         R.oracle(out is g, "same-crs-identity", case, "same CRS with default options did not return the source GeoBox", sig=sig)
         return
@@ -668,7 +793,7 @@ def judge(R, mods, g, dst, mode, shape, tight, anchor, tol, rnd, out, spy, case,
     if isinstance(mode, tuple) and shape is None:
         R.oracle((A.a, A.e) == (mode[0], mode[1]), "explicit-resolution", case, f"asked {mode} got {A.a},{A.e}", sig=sig)
     if shape is not None:
-        shape_oracle(R, shape, out, tight, anchor, case, sig)
+        shape_oracle(R, shape, out, tight, anchor, case, sig, tol)
     # footprint bbox the code used (captured) -> cover / minimal / alignment with exact rationals
     bb = spy.final["bbox"] if spy.final is not None else None
     xs = sorted([c, c + a * nx])
@@ -788,7 +913,7 @@ def coarse_part(R: Run, mods):
         except Exception as e:  # pylint: disable=broad-except
             R.oracle(False, "compute-output-raises", case, f"{type(e).__name__}: {e}")
             continue
-        judge(R, mods, src, dst, mode, None, False, anchor, tol, None, out, spy, case, 0, 0)
+        judge(R, mods, src, dst, mode, None, False, anchor, tol, None, out, spy, case, None, None)
 
 
 def run(R: Run):
@@ -797,6 +922,8 @@ def run(R: Run):
     snap_float_part(R, mods)
     exact_cog_part(R, mods)
     utm_part(R, mods)
+    crs_churn(R, mods, R.pick(320, 1600))
+    nonepsg_part(R, mods)
     coarse_part(R, mods)
     float_part(R, mods)
     R.assumptions.append("pyproj/PROJ transformations, shapely buffer/densify and the pyproj UTM database query are parameters: "
